@@ -388,10 +388,25 @@ func (f *Fam) genTx1(r *rand.Rand, s *Snapshot) string {
 	case "unjail":
 		x = 45
 	}
+	handOver := false
+	if forced == "" && f.gen.afterHandOver > 0 {
+		f.gen.afterHandOver--
+		handOver = true
+		x = 75 + r.Intn(25) // a governance message right after the hand-over
+	}
 	// governance messages come mostly from the accounts that may issue them
-	if x >= 75 && r.Intn(3) != 0 {
+	if x >= 75 && (handOver || r.Intn(3) != 0) {
 		var acl, dao string
 		govOwner(s, &acl, &dao)
+		// after a hand-over in this very block the dismissed owner tries again before the block ends
+		if f.gen.aclAtBegin != "" && f.gen.aclAtBegin != acl && (handOver || r.Intn(2) == 0) {
+			acl = f.gen.aclAtBegin
+			f.extra["c17:former-list-owner-acts-in-the-block-of-the-hand-over"]++
+		}
+		if f.gen.daoAtBegin != "" && f.gen.daoAtBegin != dao && (handOver || r.Intn(2) == 0) {
+			dao = f.gen.daoAtBegin
+			f.extra["c17:former-dao-owner-acts-in-the-block-of-the-hand-over"]++
+		}
 		who := acl
 		if x >= 85 && x < 98 {
 			who = dao
@@ -678,6 +693,8 @@ func (f *Fam) Gen(r *rand.Rand, i int) string {
 		if f.downtime() {
 			f.gen.txsLeft = int(pick(r, 0, 0, 0, 0, 0, 1, 1, 2))
 		}
+		f.gen.aclAtBegin, f.gen.daoAtBegin, f.gen.afterHandOver = "", "", 0
+		govOwner(s, &f.gen.aclAtBegin, &f.gen.daoAtBegin)
 		return f.genBegin(r, s)
 	case 2:
 		if f.gen.txsLeft <= 0 {
@@ -714,6 +731,10 @@ func (f *Fam) Gen(r *rand.Rand, i int) string {
 		f.gen.afterParamChange = strings.HasPrefix(line, "tx deliver k=changeparam")
 		if f.gen.afterParamChange && f.gen.txsLeft == 0 {
 			f.gen.txsLeft = 1 // room for the query
+		}
+		if f.gen.afterParamChange && (strings.Contains(line, "gov/acl") || strings.Contains(line, "gov/daoOwner")) {
+			f.gen.txsLeft += 3 // room for the old and the new owner to act before the block ends
+			f.gen.afterHandOver = 2
 		}
 		return line
 	case 4:
